@@ -91,7 +91,8 @@ def ExpandSound {μ : Type} (M : Sem μ) (cfg : Cfg) : Prop :=
     expandInstr cfg info rv used g = .ok ex →
     (∀ r ∈ topRegs g, r ∈ used) →
     (∀ r ∈ topRegs g, ∀ v, rv.lookup r = some v → s.regs r = some v) →
-    (info.gate2 = true → ∀ r ∈ topRegs g, (rv.lookup r).isSome = true) →
+    (info.gate2 = true → (∀ r ∈ topRegs g, (rv.lookup r).isSome = true) ∨
+      (info.tag = "mov" ∧ ∃ r0 rest, g.ops = .reg r0 :: rest ∧ s.regs r0 = some 0)) →
     s.mem = u.mem → (∀ r ∈ topRegs g, s.regs r = u.regs r) →
     M.exec g s = some s' →
     ∃ u', RunStraight M (serialise ex) u u' ∧ s'.mem = u'.mem ∧
